@@ -159,6 +159,13 @@ def pattern_level(ctx, alg, iso, cfg, name, kx, ky):
             ops.check_special_values(ctx, alg, iso, cfg, op, (kx,), cid)
     if ctx.evaluations % 300 < 4:
         ctx.sample({'config': name, 'keys_a': list(kx), 'keys_b': list(ky), 'r': alg.r, 'pss_sign': iso.pss_sign})
+    # the same object after an in-place coefficient update
+    if kx and ctx.rng.random() < 0.1:
+        meths = ['hodge', 'unhodge'] + ([] if degenerate else ['polarity', 'unpolarity']) + (['dual', 'undual'] if alg.r <= 1 else [])
+        what = ctx.rng.choice(meths)
+        cid = [name, 'inplace', what, list(kx)]
+        if ctx.want(cid):
+            ops.check_inplace_staleness(ctx, alg, cfg, lambda x: getattr(x, what)(), kx, cid, what + '()')
     # round trips
     for f, g in (('hodge', 'unhodge'), ('unhodge', 'hodge'), ('polarity', 'unpolarity'), ('unpolarity', 'polarity')):
         if f not in res:
